@@ -2,6 +2,11 @@ import VivModel.Model.Whole
 import VivModel.Props.C02Bits
 import VivModel.Props.C08
 import VivModel.Props.C17
+import VivModel.Props.C02
+import VivModel.Props.C03
+import VivModel.Props.C04
+import VivModel.Props.C05
+import VivModel.Lemmas.IndexMap
 /-! WHOLE — theorems about the COMPOSED end-to-end model (`Model/Whole.lean`).
 
 All statements are for every configuration, every state and – unless the statement is about numpy's block –
@@ -97,51 +102,81 @@ theorem length_mkRows (clock : Int) (labels keys sexes sts : List Nat) :
     (mkRows clock labels keys sexes sts).length = labels.length := by
   simp [mkRows]
 
-/-- **what a creation does**: the clock and every existing row are untouched; the new rows are appended, carry
-the new labels in order, are tracked, entered at the current clock, have not left, and their `key` is the
+/-- the keys a creation computes are the positional draws `crnKey` -/
+theorem crn_keys_eq (B : Blk) (cfg : Config) (site : String) (t : Int) (labels : List Nat) (kd : List Stream.Draw)
+    (hkd : Stream.getDrawInit
+      (RandomBlock.memoBlk (B (seedStr cfg "wpop_crn" t (if cfg.akPerPhase then "key" ++ site else "key")) (blockSize cfg)))
+      (blockSize cfg) (seedStr cfg "wpop_crn" t (if cfg.akPerPhase then "key" ++ site else "key")) labels = .ok kd) :
+    kd.map (fun d => keyOf cfg.keyBits d.2.2) = (List.range labels.length).map (crnKey B cfg site t) := by
+  unfold Stream.getDrawInit at hkd
+  split at hkd
+  · cases hkd
+    apply List.ext_getElem?
+    intro j
+    simp only [List.getElem?_map, List.getElem?_zipIdx, List.map_map]
+    rcases Nat.lt_or_ge j labels.length with hlt | hge
+    · rw [List.getElem?_range hlt]
+      have : labels[j]? = some labels[j] := by simp [hlt]
+      rw [this]
+      simp [crnKey, RandomBlock.memoBlk]
+    · rw [List.getElem?_eq_none hge, List.getElem?_eq_none (by simpa using hge)]
+      rfl
+  · cases hkd
+
+/-- the batch a creation registers with the index map: (label, key tuple) per new simulant -/
+def batchOf (B : Blk) (cfg : Config) (site : String) (t : Int) (labels : List Nat) : List (Int × IndexMap.Key) :=
+  (labels.zip ((List.range labels.length).map (crnKey B cfg site t))).map
+    fun lk => ((lk.1 : Int), keyTuple cfg t lk.2)
+
+/-- **everything a creation does**: nothing for an empty batch; otherwise the index map is updated with the batch
+(clock as salt), `sex` is chosen at the registered positions, and the new rows are appended -/
+theorem create_full (B : Blk) (cfg : Config) (site : String) (k : Nat) (s s' : State)
+    (h : create B cfg site k s = .ok s') :
+    (newLabels s.rows k = [] ∧ s' = s) ∨
+    ∃ (im : IndexMap.IMap) (sexes sts : List Nat),
+      newLabels s.rows k ≠ [] ∧
+      s.imap.update (IndexMap.hashPos (blockSize cfg)) cfg.fuel (batchOf B cfg site s.clock (newLabels s.rows k))
+        (.int s.clock) = (im, .ok ()) ∧
+      Stream.choiceStream (RandomBlock.memoBlk (B (seedStr cfg "wpop_sex" s.clock "sex") (blockSize cfg)))
+        (blockSize cfg) (posOf im) (seedStr cfg "wpop_sex" s.clock "sex") 16 2 (sexWeights cfg)
+        (newLabels s.rows k) = .ok sexes ∧
+      s' = { s with imap := im, rows := (s.rows ++ mkRows s.clock (newLabels s.rows k)
+              ((List.range (newLabels s.rows k).length).map (crnKey B cfg site s.clock)) sexes sts) } := by
+  unfold create at h
+  simp only at h
+  split at h
+  · rename_i hemp
+    cases h
+    exact Or.inl ⟨List.isEmpty_iff.mp hemp, rfl⟩
+  · rename_i hne
+    split at h
+    · cases h
+    · rename_i kd hkd
+      have hk := crn_keys_eq B cfg site s.clock _ kd hkd
+      rw [hk] at h
+      split at h
+      · cases h
+      · rename_i im u himap
+        split at h
+        · cases h
+        · split at h
+          · cases h
+          · rename_i sexes hsex _ sts hsts
+            cases h
+            cases u
+            exact Or.inr ⟨im, sexes, sts, fun hnil => hne (by rw [hnil]; rfl), himap, hsex, rfl⟩
+
+/-- **what a creation does to the table**: the clock and every existing row are untouched; the new rows are appended,
+carry the new labels in order, are tracked, entered at the current clock, have not left, and their `key` is the
 positional draw `crnKey` – whatever the existing population, the index map and every other parameter are. -/
 theorem create_spec (B : Blk) (cfg : Config) (site : String) (k : Nat) (s s' : State)
     (h : create B cfg site k s = .ok s') :
     s'.clock = s.clock ∧ ∃ sexes sts : List Nat,
       s'.rows = s.rows ++ mkRows s.clock (newLabels s.rows k)
         ((List.range (newLabels s.rows k).length).map (crnKey B cfg site s.clock)) sexes sts := by
-  unfold create at h
-  simp only at h
-  split at h
-  · rename_i hemp
-    cases h
-    refine ⟨rfl, [], [], ?_⟩
-    rw [List.isEmpty_iff.mp hemp]
-    simp [mkRows]
-  · split at h
-    · cases h
-    · rename_i kd hkd
-      split at h
-      · cases h
-      · split at h
-        · cases h
-        · split at h
-          · cases h
-          · rename_i sexes hsex _ sts hsts
-            cases h
-            refine ⟨rfl, sexes, sts, ?_⟩
-            simp only
-            congr 2
-            -- the keys are the positional draws
-            unfold Stream.getDrawInit at hkd
-            split at hkd
-            · cases hkd
-              apply List.ext_getElem?
-              intro j
-              simp only [List.getElem?_map, List.getElem?_zipIdx, List.map_map]
-              rcases Nat.lt_or_ge j (newLabels s.rows k).length with hlt | hge
-              · rw [List.getElem?_range hlt]
-                have : (newLabels s.rows k)[j]? = some (newLabels s.rows k)[j] := by simp [hlt]
-                rw [this]
-                simp [crnKey, RandomBlock.memoBlk]
-              · rw [List.getElem?_eq_none hge, List.getElem?_eq_none (by simpa using hge)]
-                rfl
-            · cases hkd
+  rcases create_full B cfg site k s s' h with ⟨hnil, rfl⟩ | ⟨im, sexes, sts, _, _, _, rfl⟩
+  · exact ⟨rfl, [], [], by rw [hnil]; simp [mkRows]⟩
+  · exact ⟨rfl, sexes, sts, rfl⟩
 
 /-! ### one listener call -/
 
@@ -167,9 +202,13 @@ structure ActRel (B : Blk) (cfg : Config) (t : Int) (s s' : State) : Prop where
   clock : s'.clock = s.clock
   old : ∀ (i : Nat) (r : Row), s.rows[i]? = some r → ∃ r', s'.rows[i]? = some r' ∧ Evolves t r r'
   new : ∀ (i : Nat) (r' : Row), s'.rows[i]? = some r' → s.rows.length ≤ i → Fresh B cfg s i r'
+  imap : s'.imap = s.imap ∨ ∃ (site : String) (labels : List Nat), labels ≠ [] ∧
+    (Lab s → labels = List.range' s.rows.length (s'.rows.length - s.rows.length)) ∧
+    s.imap.update (IndexMap.hashPos (blockSize cfg)) cfg.fuel (batchOf B cfg site s.clock labels) (.int s.clock) =
+      (s'.imap, .ok ())
 
 theorem ActRel.same (B : Blk) (cfg : Config) (t : Int) (s : State) : ActRel B cfg t s s :=
-  ⟨rfl, fun _ r h => ⟨r, h, Or.inl rfl⟩, fun i r' h hi => by rw [List.getElem?_eq_none hi] at h; cases h⟩
+  ⟨rfl, fun _ r h => ⟨r, h, Or.inl rfl⟩, fun i r' h hi => (by rw [List.getElem?_eq_none hi] at h; cases h), Or.inl rfl⟩
 
 theorem lt_of_getElem? {α : Type} {l : List α} {i : Nat} {a : α} (h : l[i]? = some a) : i < l.length := by
   rcases Nat.lt_or_ge i l.length with hlt | hge
@@ -180,7 +219,13 @@ theorem lt_of_getElem? {α : Type} {l : List α} {i : Nat} {a : α} (h : l[i]? =
 theorem create_rel (B : Blk) (cfg : Config) (t : Int) (site : String) (k : Nat) (s s' : State)
     (h : create B cfg site k s = .ok s') : ActRel B cfg t s s' := by
   obtain ⟨hc, sexes, sts, hrows⟩ := create_spec B cfg site k s s' h
-  refine ⟨hc, ?_, ?_⟩
+  refine ⟨hc, ?_, ?_, ?_⟩
+  rotate_left 2
+  · rcases create_full B cfg site k s s' h with ⟨_, rfl⟩ | ⟨im, sexes, sts, hne, himap, _, rfl⟩
+    · exact Or.inl rfl
+    · refine Or.inr ⟨site, newLabels s.rows k, hne, fun hlab => ?_, himap⟩
+      rw [newLabels_fresh s hlab]
+      simp [length_mkRows]
   · intro i r hr
     exact ⟨r, by rw [hrows, List.getElem?_append_left (lt_of_getElem? hr)]; exact hr, Or.inl rfl⟩
   · intro i r hr hge
@@ -222,7 +267,7 @@ theorem mort_rel (B : Blk) (cfg : Config) (evIdx : List Nat) (evTime : Int) (s s
   · split at h
     · cases h
     · cases h
-      refine ⟨⟨rfl, ?_, ?_⟩, by simp, rfl⟩
+      refine ⟨⟨rfl, ?_, ?_, Or.inl rfl⟩, by simp, rfl⟩
       · intro i r hr
         simp only [List.getElem?_map, hr, Option.map_some]
         refine ⟨_, rfl, ?_⟩
@@ -236,18 +281,8 @@ theorem mort_rel (B : Blk) (cfg : Config) (evIdx : List Nat) (evTime : Int) (s s
         rw [List.getElem?_eq_none (by simpa using hge)] at hr'
         cases hr'
 
-/-- the table positions `WDisease.act` hands to the machine are those of tracked simulants of the event index -/
-theorem mem_liveIdx (evIdx : List Nat) (rows : List Row) (i : Nat) :
-    i ∈ (rows.zipIdx.filter fun p => live evIdx p.1).map (·.2) ↔ ∃ r, rows[i]? = some r ∧ live evIdx r = true := by
-  simp only [List.mem_map, List.mem_filter]
-  constructor
-  · rintro ⟨⟨r, j⟩, ⟨hm, hl⟩, rfl⟩
-    exact ⟨r, List.mk_mem_zipIdx_iff_getElem?.mp hm, hl⟩
-  · rintro ⟨r, hr, hl⟩
-    exact ⟨(r, i), ⟨List.mk_mem_zipIdx_iff_getElem?.mpr hr, hl⟩, rfl⟩
-
-/-- `WDisease.act` through the C17 model (`transition_frame`): only the `state` cell of tracked simulants of the
-event index can change; nobody is added; the index map is untouched -/
+/-- `WDisease.act` through the C17 model (`transition_frame`, `transition_untracked_untouched`): only the `state`
+cell of tracked simulants can change; nobody is added; the index map is untouched -/
 theorem disease_rel (B : Blk) (cfg : Config) (t : Int) (evIdx : List Nat) (s s' : State)
     (h : disease B cfg evIdx s = .ok s') :
     ActRel B cfg t s s' ∧ s'.rows.length = s.rows.length ∧ s'.imap = s.imap := by
@@ -261,9 +296,9 @@ theorem disease_rel (B : Blk) (cfg : Config) (t : Int) (evIdx : List Nat) (s s' 
       · cases h
       · rename_i tab htab
         cases h
-        obtain ⟨hlen, hout, _⟩ := Viv.Props.C17.transition_frame _ _ _ _ _ htab
+        have hlen := (Viv.Props.C17.transition_frame _ _ _ _ _ htab).1
         have hlen' : tab.length = s.rows.length := by simpa using hlen
-        refine ⟨⟨rfl, ?_, ?_⟩, by simp [hlen'], rfl⟩
+        refine ⟨⟨rfl, ?_, ?_, Or.inl rfl⟩, by simp [hlen'], rfl⟩
         · intro i r hr
           have hi := lt_of_getElem? hr
           have htb : tab[i]? = some tab[i] := by simp [hlen', hi]
@@ -272,15 +307,11 @@ theorem disease_rel (B : Blk) (cfg : Config) (t : Int) (evIdx : List Nat) (s s' 
           by_cases hu : r.tracked = true
           · exact Or.inr (Or.inl ⟨hu, _, rfl⟩)
           · left
-            have hni : i ∉ (s.rows.zipIdx.filter fun p => live evIdx p.1).map (·.2) := by
-              rw [mem_liveIdx]
-              rintro ⟨r2, hr2, hl⟩
-              rw [hr] at hr2; cases hr2
-              simp only [live, Bool.and_eq_true] at hl
-              exact hu hl.1
-            have := hout i hni
-            rw [htb, List.getElem?_map, hr] at this
-            simp only [Option.map_some, Option.some.injEq] at this
+            have hu' : r.tracked = false := by simpa using hu
+            have := Viv.Props.C17.transition_untracked_untouched _ _ _ _ _ i
+              { st := r.st, other := 0, tracked := r.tracked } htab (by rw [List.getElem?_map, hr]; rfl) hu'
+            rw [htb] at this
+            simp only [Option.some.injEq] at this
             rw [this]
         · intro i r' hr' hge
           rw [List.getElem?_eq_none (by simp [hlen']; exact hge)] at hr'
@@ -784,6 +815,630 @@ theorem exit_is_event_time (B : Blk) (cfg : Config) (s s' : State) (h : stepWhol
   rcases h1 i r' hr' hu with h | h
   · exact Or.inl h
   · right; rw [h]; show _ = some (s1.clock + cfg.step); rw [hc1]
+
+/-! ### the index map over a whole run; common random numbers for every simulant -/
+
+/-- the index map of a run: block size and CRN flag as configured; C03's invariant (keys distinct, positions
+distinct and inside the block); every registered simulant is a row of the table, registered once -/
+def MapInv (cfg : Config) (s : State) : Prop :=
+  s.imap.size = blockSize cfg ∧ s.imap.useCrn = !cfg.keyCols.isEmpty ∧ Viv.Props.C03.IMapInv s.imap ∧
+  ∀ m, s.imap.map = some m →
+    (m.map (·.sim)).Nodup ∧ ∀ e ∈ m, ∃ i : Nat, e.sim = (i : Int) ∧ i < s.rows.length
+
+theorem imap_update_ok_cases (h : IndexMap.Key → IndexMap.Salt → Nat) (fuel : Nat) (im im' : IndexMap.IMap)
+    (batch : List (Int × IndexMap.Key)) (t : IndexMap.Salt) (e : im.update h fuel batch t = (im', .ok ())) :
+    im' = im ∨ ∃ m', (batch.isEmpty || !im.useCrn) = false ∧
+      IndexMap.update h fuel (im.map.getD []) batch t = .ok m' ∧ im' = { im with map := some m' } := by
+  unfold IndexMap.IMap.update at e
+  split at e
+  · simp only [Prod.mk.injEq] at e; exact Or.inl e.1.symm
+  · rename_i hc
+    split at e
+    · rename_i m' hx
+      simp only [Prod.mk.injEq] at e
+      exact Or.inr ⟨m', by simpa using hc, hx, e.1.symm⟩
+    · simp only [Prod.mk.injEq] at e
+      cases e.2
+
+theorem batchOf_sims (B : Blk) (cfg : Config) (site : String) (t : Int) (labels : List Nat) :
+    (batchOf B cfg site t labels).map (·.1) = labels.map fun (l : Nat) => (l : Int) := by
+  unfold batchOf
+  rw [List.map_map]
+  have : ((fun x : Int × IndexMap.Key => x.1) ∘ fun lk : Nat × Nat => ((lk.1 : Int), keyTuple cfg t lk.2)) =
+      (fun l : Nat => (l : Int)) ∘ Prod.fst := rfl
+  rw [this, ← List.map_map, List.map_fst_zip (by simp)]
+
+theorem getElem?_batchOf (B : Blk) (cfg : Config) (site : String) (t : Int) (labels : List Nat) (j l : Nat)
+    (hl : labels[j]? = some l) :
+    (batchOf B cfg site t labels)[j]? = some ((l : Int), keyTuple cfg t (crnKey B cfg site t j)) := by
+  unfold batchOf
+  have hj := lt_of_getElem? hl
+  have hz : (labels.zip ((List.range labels.length).map (crnKey B cfg site t)))[j]? =
+      some (l, crnKey B cfg site t j) := by
+    rw [List.getElem?_zip_eq_some]
+    exact ⟨hl, by simp [List.getElem?_range hj]⟩
+  rw [List.getElem?_map, hz]
+  rfl
+
+theorem mem_batchOf (B : Blk) (cfg : Config) (site : String) (t : Int) (labels : List Nat)
+    (x : Int × IndexMap.Key) (hx : x ∈ batchOf B cfg site t labels) :
+    ∃ (j l : Nat), labels[j]? = some l ∧ x = ((l : Int), keyTuple cfg t (crnKey B cfg site t j)) := by
+  obtain ⟨j, hj⟩ := List.mem_iff_getElem?.mp hx
+  have hjl : j < labels.length := by
+    have := lt_of_getElem? hj
+    simpa [batchOf] using this
+  have hl : labels[j]? = some labels[j] := by simp [hjl]
+  rw [getElem?_batchOf B cfg site t labels j _ hl] at hj
+  exact ⟨j, _, hl, (Option.some.inj hj).symm⟩
+
+theorem ActRel.length_le {B : Blk} {cfg : Config} {t : Int} {s s' : State} (hr : ActRel B cfg t s s') :
+    s.rows.length ≤ s'.rows.length :=
+  Ext.length_le (a := s) (b := s') fun i r h => let ⟨r', h', e⟩ := hr.old i r h; ⟨r', h', e.frozen⟩
+
+/-- **the index map's invariant is kept by every listener call** (C03's `update_inv` composed with the creation of
+fresh labels): at every point of a run where a listener starts, the map is injective, in range, and holds exactly
+one row per registered simulant -/
+theorem mapInv_kept (B : Blk) (cfg : Config) (hsize : 0 < blockSize cfg) :
+    Kept B cfg (fun s => Good B cfg s ∧ MapInv cfg s) := by
+  intro s s' ⟨hg, hsz, hcrn, hI, hsims⟩ hr
+  refine ⟨good_kept B cfg s s' hg hr, ?_⟩
+  have hlen := hr.length_le
+  have same : s'.imap = s.imap → MapInv cfg s' := by
+    intro heq
+    unfold MapInv
+    rw [heq]
+    refine ⟨hsz, hcrn, hI, fun m hm => ⟨(hsims m hm).1, fun e he => ?_⟩⟩
+    obtain ⟨i, h1, h2⟩ := (hsims m hm).2 e he
+    exact ⟨i, h1, by omega⟩
+  rcases hr.imap with heq | ⟨site, labels, _, hlab, hupd⟩
+  · exact same heq
+  · rcases imap_update_ok_cases _ _ _ _ _ _ hupd with heq | ⟨m', _, hx, heq⟩
+    · exact same heq
+    · have hl := hlab (good_lab hg)
+      have hold : Viv.Props.C03.Inv (blockSize cfg) (s.imap.map.getD []) := by
+        rw [← hsz]
+        cases hm : s.imap.map with
+        | none => exact Viv.Props.C03.inv_nil _
+        | some m => exact hI m hm
+      have hI' := Viv.Props.C03.update_inv (IndexMap.hashPos (blockSize cfg)) (blockSize cfg) cfg.fuel
+        (fun k x => Viv.Props.C03.hashPos_lt _ k x hsize) _ _ _ m' hold hx
+      obtain ⟨res, newE, _, _, hperm, hrows, _⟩ :=
+        IndexMap.update_ok_spec _ cfg.fuel _ _ _ m' hold.2.1 hx
+      have hnew : newE.map (·.sim) = labels.map fun (l : Nat) => (l : Int) := by
+        rw [← batchOf_sims B cfg site s.clock labels, ← hrows, List.map_map]
+        rfl
+      have holdsims : ((s.imap.map.getD []).map (·.sim)).Nodup ∧
+          ∀ e ∈ s.imap.map.getD [], ∃ i : Nat, e.sim = (i : Int) ∧ i < s.rows.length := by
+        cases hm : s.imap.map with
+        | none => simp
+        | some m => exact hsims m hm
+      unfold MapInv
+      rw [heq]
+      refine ⟨hsz, hcrn, ?_, ?_⟩
+      · intro m hm
+        simp only [Option.some.injEq] at hm
+        subst hm
+        rw [hsz]; exact hI'
+      · intro m hm
+        simp only [Option.some.injEq] at hm
+        subst hm
+        have hps := hperm.map (·.sim)
+        rw [List.map_append, hnew, hl] at hps
+        constructor
+        · rw [hps.nodup_iff, List.nodup_append]
+          refine ⟨holdsims.1, ?_, ?_⟩
+          · rw [List.nodup_iff_pairwise_ne, List.pairwise_map]
+            exact (List.pairwise_lt_range' (s := s.rows.length) (n := s'.rows.length - s.rows.length) 1).imp
+              (fun {a b} hab heq => by have : a = b := Int.ofNat.inj heq; omega)
+          · intro a ha b hb hab
+            obtain ⟨e, he, rfl⟩ := List.mem_map.mp ha
+            obtain ⟨i, hi1, hi2⟩ := holdsims.2 e he
+            obtain ⟨l, hl1, rfl⟩ := List.mem_map.mp hb
+            rw [List.mem_range'_1] at hl1
+            rw [hi1] at hab
+            have : i = l := Int.ofNat.inj hab
+            omega
+        · intro e he
+          have : e.sim ∈ m'.map (·.sim) := List.mem_map_of_mem (f := (·.sim)) he
+          rw [hps.mem_iff, List.mem_append] at this
+          rcases this with h1 | h1
+          · obtain ⟨e0, he0, heq0⟩ := List.mem_map.mp h1
+            obtain ⟨i, hi1, hi2⟩ := holdsims.2 e0 he0
+            exact ⟨i, by rw [← heq0]; exact hi1, by omega⟩
+          · obtain ⟨l, hl1, hl2⟩ := List.mem_map.mp h1
+            rw [List.mem_range'_1] at hl1
+            exact ⟨l, hl2.symm, by omega⟩
+
+theorem mapInv_initState (cfg : Config) : MapInv cfg (initState cfg) := by
+  refine ⟨rfl, rfl, ?_, ?_⟩
+  · intro m hm; simp [initState] at hm
+  · intro m hm; simp [initState] at hm
+
+/-- the invariants at every state a listener call starts from, over a whole run -/
+theorem run_mapInv (B : Blk) (cfg : Config) (hsize : 0 < blockSize cfg) (n : Nat) (s0 s : State)
+    (h0 : initPopB B cfg = .ok s0) (h : iterWhole B cfg n s0 = .ok s) : Good B cfg s ∧ MapInv cfg s := by
+  have hclk : ∀ (x : State) (c : Int), (Good B cfg x ∧ MapInv cfg x) → (Good B cfg { x with clock := c } ∧ MapInv cfg { x with clock := c }) :=
+    fun _ _ h => h
+  apply iter_inv_rows B cfg _ (mapInv_kept B cfg hsize) hclk n s0 s _ h
+  unfold initPopB at h0
+  split at h0
+  · rename_i s1 h1
+    cases h0
+    have hr := create_rel B cfg ((initState cfg).clock + cfg.step) _ _ _ s1 h1
+    exact hclk _ _ (mapInv_kept B cfg hsize _ s1 ⟨good_initState B cfg, mapInv_initState cfg⟩ hr)
+  · cases h0
+
+/-- **positions are injective, in range and stable over a whole run** (C03 at the level of the simulation): with key
+columns configured, after the initial creation and any number of steps no two registered simulants share a position
+of the random block and every position is inside the block -/
+theorem run_positions_injective (B : Blk) (cfg : Config) (hsize : 0 < blockSize cfg) (n : Nat) (s0 s : State)
+    (h0 : initPopB B cfg = .ok s0) (h : iterWhole B cfg n s0 = .ok s) (m : List IndexMap.Entry)
+    (hm : s.imap.map = some m) :
+    (m.map (·.pos)).Nodup ∧ (m.map (·.key)).Nodup ∧ (m.map (·.sim)).Nodup ∧ ∀ e ∈ m, e.pos < blockSize cfg := by
+  obtain ⟨_, hsz, _, hI, hsims⟩ := run_mapInv B cfg hsize n s0 s h0 h
+  obtain ⟨h1, h2, h3⟩ := hI m hm
+  exact ⟨h2, h1, (hsims m hm).1, fun e he => by rw [← hsz]; exact h3 e he⟩
+
+/-- one weight row for everybody: `choice` decides simulant by simulant, from its own draw at its own position -/
+theorem choiceStream_oneD (blk : String → Nat → Nat → Nat) (size : Nat) (pos : Nat → Option Nat) (ks : String)
+    (a b : Nat) (labels sexes : List Nat)
+    (h : Stream.choiceStream blk size pos ks 16 2 (.oneD [.val a, .val b]) labels = .ok sexes)
+    (j l : Nat) (hl : labels[j]? = some l) :
+    ∃ p, pos l = some p ∧ sexes[j]? = some (Stream.choiceIdx [a, b] (blk ks size p) (2 ^ 53)) := by
+  unfold Stream.choiceStream at h
+  split at h
+  · cases h
+  · rename_i ds hds
+    have hpw := (Viv.Props.C02.getDraw_pointwise blk size pos ks labels ds).mp hds
+    have hdj : (labels.map (Viv.Props.C02.drawOf blk size pos ks))[j]? = (ds.map some)[j]? := by rw [hpw]
+    rw [List.getElem?_map, hl, List.getElem?_map] at hdj
+    simp only [Option.map_some, Viv.Props.C02.drawOf] at hdj
+    cases hp : pos l with
+    | none =>
+      rw [hp] at hdj
+      cases hd : ds[j]? with
+      | none => simp [hd] at hdj
+      | some d => simp [hd] at hdj
+    | some p =>
+      rw [hp] at hdj
+      refine ⟨p, rfl, ?_⟩
+      cases hd : ds[j]? with
+      | none => simp [hd] at hdj
+      | some d =>
+        simp only [hd, Option.map_some, Option.some.injEq] at hdj
+        obtain ⟨rows, hrows, hidx⟩ := Viv.Props.C05.choice_pointwise 16 2 _ _ _ sexes h
+        have hrows' : rows = List.replicate ds.length [a, b] := by
+          simp only [Stream.normalizeShape, List.length_map, List.map_replicate] at hrows
+          unfold Stream.alignRows at hrows
+          simp only [List.length_replicate, ↓reduceIte] at hrows
+          cases hrows
+          simp [Stream.spell, Stream.rowSum, Stream.Cell.num]
+        rw [hidx, hrows', List.getElem?_zipWith, List.getElem?_replicate, List.getElem?_map, hd]
+        have hj : j < ds.length := lt_of_getElem? hd
+        simp only [hj, ↓reduceIte, Option.map_some]
+        rw [← hdj]
+
+set_option maxRecDepth 20000 in
+/-- **Common random numbers for a newborn (and for the initial population).** In ANY state a listener call can start
+from (any population, any earlier registrations), a creation at clock `t` from site `site`: if the first hashed
+position `p₀` of the `j`-th new simulant's key tuple is used neither by an earlier simulant nor by another key of the
+same batch, the simulant is registered at `p₀` and its `sex` is decided by the draw at `p₀` of the block of
+`wpop_sex_<t>_sex_<seed>`: a function of (seed, block size, clock, key tuple, sex ratio) and of NOTHING else –
+not of the labels, the batch, the other simulants, births, mortality, machine, order or priorities. -/
+theorem newborn_sex_crn (B : Blk) (cfg : Config) (hsize : 0 < blockSize cfg) (site : String) (k : Nat) (s s' : State)
+    (hg : Good B cfg s) (hm : MapInv cfg s) (hcrn : cfg.keyCols ≠ [])
+    (h : create B cfg site k s = .ok s') (j : Nat) (hj : j < k)
+    (hfree : ∀ m, s.imap.map = some m →
+      IndexMap.hashPos (blockSize cfg) (keyTuple cfg s.clock (crnKey B cfg site s.clock j)) (.int s.clock) ∉ m.map (·.pos))
+    (hunshared : ∀ j', j' < k →
+      keyTuple cfg s.clock (crnKey B cfg site s.clock j') ≠ keyTuple cfg s.clock (crnKey B cfg site s.clock j) →
+      IndexMap.hashPos (blockSize cfg) (keyTuple cfg s.clock (crnKey B cfg site s.clock j')) (.int s.clock) ≠
+        IndexMap.hashPos (blockSize cfg) (keyTuple cfg s.clock (crnKey B cfg site s.clock j)) (.int s.clock)) :
+    posOf s'.imap (s.rows.length + j) =
+      some (IndexMap.hashPos (blockSize cfg) (keyTuple cfg s.clock (crnKey B cfg site s.clock j)) (.int s.clock)) ∧
+    ∃ r, s'.rows[s.rows.length + j]? = some r ∧
+      r.sex = Stream.choiceIdx [cfg.sexW, 16 - cfg.sexW]
+        ((B (seedStr cfg "wpop_sex" s.clock "sex") (blockSize cfg))[IndexMap.hashPos (blockSize cfg)
+          (keyTuple cfg s.clock (crnKey B cfg site s.clock j)) (.int s.clock)]?.getD 0) (2 ^ 53) := by
+  obtain ⟨hsz, huse, hI, hsims⟩ := hm
+  have hlab := good_lab hg
+  have hlabels : newLabels s.rows k = List.range' s.rows.length k := newLabels_fresh s hlab k
+  rcases create_full B cfg site k s s' h with ⟨hnil, _⟩ | ⟨im, sexes, sts, hne, himap, hsex, rfl⟩
+  · rw [hlabels] at hnil
+    have : (List.range' s.rows.length k).length = 0 := by rw [hnil]; rfl
+    simp at this; omega
+  · rw [hlabels] at himap hsex
+    simp only [hlabels, List.length_range']
+    have hlj : (List.range' s.rows.length k)[j]? = some (s.rows.length + j) := by
+      rw [List.getElem?_range' hj]; simp
+    -- the update really happened
+    have huc : s.imap.useCrn = true := by
+      rw [huse]
+      cases hk : cfg.keyCols with
+      | nil => exact absurd hk hcrn
+      | cons a as => rfl
+    rcases imap_update_ok_cases _ _ _ _ _ _ himap with heq | ⟨m', _, hx, heq⟩
+    · -- impossible: the batch is not empty and CRN is in use
+      exfalso
+      unfold IndexMap.IMap.update at himap
+      have hbne : (batchOf B cfg site s.clock (List.range' s.rows.length k)).isEmpty = false := by
+        have := getElem?_batchOf B cfg site s.clock _ j _ hlj
+        cases hb : batchOf B cfg site s.clock (List.range' s.rows.length k) with
+        | nil => rw [hb] at this; simp at this
+        | cons a as => rfl
+      simp only [hbne, huc, Bool.not_true, Bool.or_self, Bool.false_eq_true, ↓reduceIte] at himap
+      split at himap
+      · rename_i m'' hx''
+        simp only [Prod.mk.injEq] at himap
+        have := himap.1
+        rw [heq] at this
+        -- the map would have to be unchanged although it now holds the new simulant
+        have hold : Viv.Props.C03.Inv (blockSize cfg) (s.imap.map.getD []) := by
+          rw [← hsz]
+          cases hmm : s.imap.map with
+          | none => exact Viv.Props.C03.inv_nil _
+          | some m => exact hI m hmm
+        have hreg := (Viv.Props.C03.update_registers_batch _ cfg.fuel _ _ _ m'' hold.2.1 hx'').2.2
+          (((s.rows.length + j : Nat) : Int), keyTuple cfg s.clock (crnKey B cfg site s.clock j))
+          (List.mem_iff_getElem?.mpr ⟨j, getElem?_batchOf B cfg site s.clock _ j _ hlj⟩)
+        obtain ⟨p, hp⟩ := hreg
+        have hmap : s.imap.map = some m'' := by rw [← this]
+        obtain ⟨i, hi1, hi2⟩ := (hsims m'' hmap).2 _ hp
+        simp only at hi1
+        have : s.rows.length + j = i := Int.ofNat.inj hi1
+        omega
+      · simp only [Prod.mk.injEq] at himap
+        cases himap.2
+    · have hold : Viv.Props.C03.Inv (blockSize cfg) (s.imap.map.getD []) := by
+        rw [← hsz]
+        cases hmm : s.imap.map with
+        | none => exact Viv.Props.C03.inv_nil _
+        | some m => exact hI m hmm
+      -- C04: the key keeps its first hash
+      have hin : (((s.rows.length + j : Nat) : Int), keyTuple cfg s.clock (crnKey B cfg site s.clock j)) ∈
+          batchOf B cfg site s.clock (List.range' s.rows.length k) :=
+        List.mem_iff_getElem?.mpr ⟨j, getElem?_batchOf B cfg site s.clock _ j _ hlj⟩
+      have hfree' : IndexMap.hashPos (blockSize cfg) (keyTuple cfg s.clock (crnKey B cfg site s.clock j)) (.int s.clock) ∉
+          (s.imap.map.getD []).map (·.pos) := by
+        cases hmm : s.imap.map with
+        | none => simp
+        | some m => exact hfree m hmm
+      have hmem := Viv.Props.C04.noncolliding_keeps_hash _ cfg.fuel _ _ _ _ _ m' hold.2.1 hin hfree'
+        (by
+          intro r hr hne'
+          obtain ⟨j', l, hl', rfl⟩ := mem_batchOf B cfg site s.clock _ r hr
+          have hj' : j' < k := by have := lt_of_getElem? hl'; simpa using this
+          exact hunshared j' hj' hne') hx
+      -- sims are distinct in the new map (the invariant is kept by this very creation)
+      have hkept := mapInv_kept B cfg hsize s _ ⟨hg, hsz, huse, hI, hsims⟩
+        (create_rel B cfg (s.clock + cfg.step) site k s _ h)
+      have hsims' := (hkept.2.2.2.2 m' (by rw [heq])).1
+      have hpos : posOf im (s.rows.length + j) = some (IndexMap.hashPos (blockSize cfg)
+          (keyTuple cfg s.clock (crnKey B cfg site s.clock j)) (.int s.clock)) := by
+        unfold posOf
+        rw [heq]
+        simp only [huc, ↓reduceIte]
+        exact IndexMap.posOfSim_of_mem m' hsims' _ hmem
+      refine ⟨hpos, ?_⟩
+      obtain ⟨p, hp, hsx⟩ := choiceStream_oneD _ _ _ _ _ _ _ sexes hsex j _ hlj
+      rw [hpos] at hp
+      cases hp
+      rw [List.getElem?_append_right (by omega), getElem?_mkRows]
+      have : s.rows.length + j - s.rows.length = j := by omega
+      rw [this, hlj]
+      refine ⟨_, rfl, ?_⟩
+      have e : ∀ (arr : Array Nat) (ks : String) (sz q : Nat), RandomBlock.memoBlk arr ks sz q = arr[q]?.getD 0 :=
+        fun _ _ _ _ => rfl
+      show sexes.getD j 0 = _
+      rw [List.getD_eq_getElem?_getD, hsx, e]
+      exact Option.getD_some
+
+/-- **Two whole simulations side by side.** Two configurations that agree on what identifies the randomness (seed, block
+size, key columns and their representation, key bits, sex ratio) and are otherwise ARBITRARY (births in any channel,
+mortality, machine, order, priorities, population size); in each, any state a listener call can start from (any
+history), at the same clock time; in each a creation (any site, any batch size) in which some simulant gets the same
+`key` value. If in both simulations that key's first hashed position is free and unshared (the documented exception
+of the property), the two simulants – whatever their labels – sit at the same position of the random block and have
+the same `sex`. -/
+theorem crn_sex_pair (B : Blk) (c1 c2 : Config) (hsize : 0 < blockSize c1)
+    (hseed : c1.seed = c2.seed) (hbs : blockSize c1 = blockSize c2) (hkc : c1.keyCols = c2.keyCols)
+    (hkf : c1.keyFloat = c2.keyFloat) (hkb : c1.keyBits = c2.keyBits) (hsw : c1.sexW = c2.sexW)
+    (hcrn : c1.keyCols ≠ [])
+    (site1 site2 : String) (k1 k2 : Nat) (a a' b b' : State)
+    (hga : Good B c1 a) (hma : MapInv c1 a) (hgb : Good B c2 b) (hmb : MapInv c2 b) (hclock : a.clock = b.clock)
+    (ha : create B c1 site1 k1 a = .ok a') (hb : create B c2 site2 k2 b = .ok b')
+    (j1 j2 : Nat) (hj1 : j1 < k1) (hj2 : j2 < k2)
+    (hsame : crnKey B c1 site1 a.clock j1 = crnKey B c2 site2 b.clock j2)
+    (hfree1 : ∀ m, a.imap.map = some m →
+      IndexMap.hashPos (blockSize c1) (keyTuple c1 a.clock (crnKey B c1 site1 a.clock j1)) (.int a.clock) ∉ m.map (·.pos))
+    (hfree2 : ∀ m, b.imap.map = some m →
+      IndexMap.hashPos (blockSize c2) (keyTuple c2 b.clock (crnKey B c2 site2 b.clock j2)) (.int b.clock) ∉ m.map (·.pos))
+    (hun1 : ∀ j', j' < k1 →
+      keyTuple c1 a.clock (crnKey B c1 site1 a.clock j') ≠ keyTuple c1 a.clock (crnKey B c1 site1 a.clock j1) →
+      IndexMap.hashPos (blockSize c1) (keyTuple c1 a.clock (crnKey B c1 site1 a.clock j')) (.int a.clock) ≠
+        IndexMap.hashPos (blockSize c1) (keyTuple c1 a.clock (crnKey B c1 site1 a.clock j1)) (.int a.clock))
+    (hun2 : ∀ j', j' < k2 →
+      keyTuple c2 b.clock (crnKey B c2 site2 b.clock j') ≠ keyTuple c2 b.clock (crnKey B c2 site2 b.clock j2) →
+      IndexMap.hashPos (blockSize c2) (keyTuple c2 b.clock (crnKey B c2 site2 b.clock j')) (.int b.clock) ≠
+        IndexMap.hashPos (blockSize c2) (keyTuple c2 b.clock (crnKey B c2 site2 b.clock j2)) (.int b.clock)) :
+    posOf a'.imap (a.rows.length + j1) = posOf b'.imap (b.rows.length + j2) ∧
+    ∃ ra rb, a'.rows[a.rows.length + j1]? = some ra ∧ b'.rows[b.rows.length + j2]? = some rb ∧
+      ra.sex = rb.sex ∧ ra.key = rb.key ∧ ra.entrance = rb.entrance := by
+  obtain ⟨p1, ra, hra, hsa⟩ := newborn_sex_crn B c1 hsize site1 k1 a a' hga hma hcrn ha j1 hj1 hfree1 hun1
+  obtain ⟨p2, rb, hrb, hsb⟩ := newborn_sex_crn B c2 (hbs ▸ hsize) site2 k2 b b' hgb hmb (hkc ▸ hcrn) hb j2 hj2 hfree2 hun2
+  obtain ⟨ra', hra', _, hea, hka, _⟩ := newborn_key_positional B c1 site1 k1 a a' ha (good_lab hga) j1 hj1
+  obtain ⟨rb', hrb', _, heb, hkb', _⟩ := newborn_key_positional B c2 site2 k2 b b' hb (good_lab hgb) j2 hj2
+  rw [hra] at hra'; cases hra'
+  rw [hrb] at hrb'; cases hrb'
+  have hsame' := hsame
+  rw [hclock] at hsame'
+  have hkt : keyTuple c1 a.clock (crnKey B c1 site1 a.clock j1) = keyTuple c2 b.clock (crnKey B c2 site2 b.clock j2) := by
+    simp only [keyTuple, keyVal, hkc, hkf, hkb, hclock, hsame']
+  refine ⟨by rw [p1, p2, hkt, hbs, hclock], ra, rb, hra, hrb, ?_, by rw [hka, hkb', hsame], by rw [hea, heb, hclock]⟩
+  rw [hsa, hsb, hkt, hbs, hclock, hsw]
+  simp only [seedStr, hseed]
+
+/-! ### the states a listener call can start from -/
+
+/-- the states of a run of `cfg` at the granularity of listener calls: the state before the initial creation, whatever
+a listener call (or the initial creation) leaves when started in such a state at event time `clock + step`, and the
+same with the clock moved (`step_forward`) -/
+inductive Reach (B : Blk) (cfg : Config) : State → Prop
+  | init : Reach B cfg (initState cfg)
+  | act (s s' : State) : Reach B cfg s → ActRel B cfg (s.clock + cfg.step) s s' → Reach B cfg s'
+  | tick (s : State) (c : Int) : Reach B cfg s → Reach B cfg { s with clock := c }
+
+/-- every such state satisfies the invariants the CRN theorems (`newborn_sex_crn`, `crn_sex_pair`) ask for -/
+theorem reach_inv (B : Blk) (cfg : Config) (hsize : 0 < blockSize cfg) (s : State) (h : Reach B cfg s) :
+    Good B cfg s ∧ MapInv cfg s := by
+  induction h with
+  | init => exact ⟨good_initState B cfg, mapInv_initState cfg⟩
+  | act s s' _ hr ih => exact mapInv_kept B cfg hsize s s' ih hr
+  | tick s c _ ih => exact ih
+
+theorem reach_kept (B : Blk) (cfg : Config) : Kept B cfg (Reach B cfg) := fun s s' h hr => Reach.act s s' h hr
+
+/-- the state after the initial creation and after every step of a run is such a state … -/
+theorem run_reach (B : Blk) (cfg : Config) (n : Nat) (s0 s : State) (h0 : initPopB B cfg = .ok s0)
+    (h : iterWhole B cfg n s0 = .ok s) : Reach B cfg s := by
+  apply iter_inv_rows B cfg _ (reach_kept B cfg) (fun x c hx => Reach.tick x c hx) n s0 s _ h
+  unfold initPopB at h0
+  split at h0
+  · rename_i s1 h1
+    cases h0
+    exact Reach.tick _ _ (Reach.act _ s1 Reach.init (create_rel B cfg _ _ _ _ s1 h1))
+  · cases h0
+
+theorem runListeners_append (B : Blk) (cfg : Config) (ph : Nat) (evIdx : List Nat) (t : Int) :
+    ∀ (pre post : List Ev.Reg) (s s' : State), runListeners B cfg ph evIdx t (pre ++ post) s = .ok s' →
+      ∃ mid, runListeners B cfg ph evIdx t pre s = .ok mid ∧ runListeners B cfg ph evIdx t post mid = .ok s' := by
+  intro pre
+  induction pre with
+  | nil => intro post s s' h; exact ⟨s, rfl, h⟩
+  | cons r pre ih =>
+    intro post s s' h
+    rw [List.cons_append] at h
+    unfold runListeners at h
+    split at h
+    · rename_i s1 h1
+      obtain ⟨mid, hm1, hm2⟩ := ih post s1 s' h
+      refine ⟨mid, ?_, hm2⟩
+      show runListeners B cfg ph evIdx t (r :: pre) s = .ok mid
+      unfold runListeners
+      rw [h1]
+      exact hm1
+    · cases h
+
+/-- … and so is the state EVERY listener call of an event starts from: if an event is emitted in such a state, then
+for every split of its listeners into those already called and those still to call, the state in between is one too
+(same clock) – in particular the state in which a births listener calls the creator -/
+theorem listener_starts_reach (B : Blk) (cfg : Config) (ph : Nat) (s s' : State) (hs : Reach B cfg s)
+    (h : emit B cfg ph s = .ok s') (pre post : List Ev.Reg)
+    (hsplit : Ev.emitOrder Gen.nBuckets (regs cfg ph) = pre ++ post) :
+    ∃ mid, Reach B cfg mid ∧ mid.clock = s.clock ∧
+      runListeners B cfg ph (s.rows.map (·.label)) (s.clock + cfg.step) post mid = .ok s' := by
+  unfold emit at h
+  rw [hsplit] at h
+  obtain ⟨mid, hm1, hm2⟩ := runListeners_append B cfg ph _ _ pre post s s' h
+  obtain ⟨hr, hc⟩ := runListeners_inv B cfg _ (reach_kept B cfg) ph _ _ pre s mid hs rfl hm1
+  exact ⟨mid, hr, hc, hm2⟩
+
+/-! ### the size of the population in closed form -/
+
+/-- the schedule entry `births[(clock - start) // step][channel]` (0 outside the schedule) -/
+def birthsAt (cfg : Config) (clock : Int) (ph : Nat) : Nat :=
+  if 0 ≤ (clock - cfg.start) / cfg.step then
+    match cfg.births[((clock - cfg.start) / cfg.step).toNat]? with
+    | some row => row.getD ph 0
+    | none => 0
+  else 0
+
+theorem births_length (B : Blk) (cfg : Config) (ph : Nat) (s s' : State) (hl : Lab s)
+    (h : births B cfg ph s = .ok s') : s'.rows.length = s.rows.length + birthsAt cfg s.clock ph := by
+  unfold births at h
+  unfold birthsAt
+  simp only at h
+  split at h
+  · rename_i hsn
+    simp only [hsn, ↓reduceIte]
+    split at h
+    · rename_i row hrow
+      rw [hrow]
+      obtain ⟨_, _, _, hrows⟩ := create_spec B cfg _ _ s s' h
+      rw [hrows, List.length_append, length_mkRows, newLabels_fresh s hl, List.length_range']
+    · rename_i hnone
+      cases h
+      rw [hnone]; rfl
+  · rename_i hsn
+    cases h
+    simp [hsn]
+
+theorem act_length (B : Blk) (cfg : Config) (ph : Nat) (evIdx : List Nat) (evTime : Int) (who : Nat) (s s' : State)
+    (hl : Lab s) (h : act B cfg ph evIdx evTime who s = .ok s') :
+    s'.rows.length = s.rows.length + (if who = 0 then birthsAt cfg s.clock ph else 0) := by
+  unfold act at h
+  split at h
+  · rename_i hw
+    simp only [hw, ↓reduceIte]
+    exact births_length B cfg ph s s' hl h
+  · rename_i hw
+    simp only [hw, ↓reduceIte, Nat.add_zero]
+    split at h
+    · exact (mort_rel B cfg evIdx evTime s s' h).2.1
+    · exact (disease_rel B cfg evTime evIdx s s' h).2.1
+
+theorem runListeners_length (B : Blk) (cfg : Config) (ph : Nat) (evIdx : List Nat) (t : Int) :
+    ∀ (rs : List Ev.Reg) (s s' : State), Good B cfg s → s.clock + cfg.step = t →
+      runListeners B cfg ph evIdx t rs s = .ok s' →
+      s'.rows.length = s.rows.length + rs.countP (fun r => r.2 == 0) * birthsAt cfg s.clock ph := by
+  intro rs
+  induction rs with
+  | nil => intro s s' _ _ h; cases h; simp
+  | cons r rs ih =>
+    intro s s' hg ht h
+    unfold runListeners at h
+    split at h
+    · rename_i s1 h1
+      have hr := act_rel B cfg ph evIdx t r.2 s s1 h1
+      have g1 : Good B cfg s1 := good_kept B cfg s s1 hg (by rw [ht]; exact hr)
+      have l1 := act_length B cfg ph evIdx t r.2 s s1 (good_lab hg) h1
+      rw [ih s1 s' g1 (by rw [hr.clock]; exact ht) h, l1, hr.clock, List.countP_cons]
+      by_cases hw : r.2 = 0
+      · simp only [hw, ↓reduceIte, beq_self_eq_true, Nat.add_mul, Nat.one_mul]; omega
+      · have : (r.2 == 0) = false := by simpa using hw
+        simp only [hw, ↓reduceIte, this, Bool.false_eq_true, Nat.add_zero]
+    · cases h
+
+/-- how many of the registrations on a channel are WPop's births listener: once per occurrence of WPop in the
+component list -/
+theorem regs_births_count (cfg : Config) (ph : Nat) :
+    (regs cfg ph).countP (fun r => r.2 == 0) = cfg.order.count 0 := by
+  unfold regs
+  induction cfg.order with
+  | nil => rfl
+  | cons c cs ih =>
+    rw [List.flatMap_cons, List.countP_append, ih, List.count_cons]
+    rw [Nat.add_comm]
+    congr 1
+    by_cases h0 : c = 0
+    · simp [h0]
+    · by_cases h1 : c = 1
+      · by_cases hm : cfg.mortPhase = ph <;> simp [h1, hm]
+      · by_cases h2 : c = 2
+        · by_cases hd : cfg.disPhase = ph <;> simp [h2, hd]
+        · simp [h0, h1, h2]
+
+/-- every listener's priority is one of the channel's buckets (what `register_listener` requires) -/
+def PriosOk (cfg : Config) : Prop :=
+  (∀ ph, cfg.birthPrio.getD ph 5 < Gen.nBuckets) ∧ cfg.mortPrio < Gen.nBuckets ∧ cfg.disPrio < Gen.nBuckets
+
+theorem regs_prio_lt (cfg : Config) (hp : PriosOk cfg) (ph : Nat) : ∀ r ∈ regs cfg ph, r.1 < Gen.nBuckets := by
+  intro r hr
+  unfold regs at hr
+  rw [List.mem_flatMap] at hr
+  obtain ⟨c, _, hc⟩ := hr
+  split at hc
+  · simp only [List.mem_singleton] at hc; rw [hc]; exact hp.1 ph
+  · split at hc
+    · split at hc
+      · simp only [List.mem_singleton] at hc; rw [hc]; exact hp.2.1
+      · cases hc
+    · split at hc
+      · split at hc
+        · simp only [List.mem_singleton] at hc; rw [hc]; exact hp.2.2
+        · cases hc
+      · cases hc
+
+/-- one event: every registered listener is called exactly once (C08's `emit_perm`), so the table grows by the
+schedule entry of this channel once per births listener -/
+theorem emit_length (B : Blk) (cfg : Config) (hp : PriosOk cfg) (ph : Nat) (s s' : State) (hg : Good B cfg s)
+    (h : emit B cfg ph s = .ok s') :
+    s'.rows.length = s.rows.length + cfg.order.count 0 * birthsAt cfg s.clock ph := by
+  unfold emit at h
+  rw [runListeners_length B cfg ph _ _ _ s s' hg rfl h,
+    (Viv.Props.C08.emit_perm Gen.nBuckets (regs cfg ph) (regs_prio_lt cfg hp ph)).countP_eq, regs_births_count]
+
+/-- the simulants the schedule creates during the step that starts at `clock` -/
+def scheduledAt (cfg : Config) (clock : Int) : Nat :=
+  birthsAt cfg clock 0 + birthsAt cfg clock 1 + birthsAt cfg clock 2 + birthsAt cfg clock 3
+
+theorem runPhases_length (B : Blk) (cfg : Config) (hp : PriosOk cfg) :
+    ∀ (phs : List Nat) (s s' : State), Good B cfg s → runPhases B cfg phs s = .ok s' →
+      s'.rows.length = s.rows.length + cfg.order.count 0 * (phs.map (birthsAt cfg s.clock)).sum := by
+  intro phs
+  induction phs with
+  | nil => intro s s' _ h; cases h; simp
+  | cons ph phs ih =>
+    intro s s' hg h
+    unfold runPhases at h
+    split at h
+    · rename_i s1 h1
+      have k1 := runListeners_inv B cfg _ (good_kept B cfg) ph _ _ _ s s1 hg rfl h1
+      rw [ih s1 s' k1.1 h, emit_length B cfg hp ph s s1 hg h1, k1.2, List.map_cons, List.sum_cons, Nat.mul_add]
+      omega
+    · cases h
+
+/-- **one step creates exactly what the schedule says** (times the number of WPop components – 1 in a valid
+configuration): every channel is emitted once, every listener called once, every creation hands out exactly `count`
+labels -/
+theorem step_length (B : Blk) (cfg : Config) (hp : PriosOk cfg) (s s' : State) (hg : Good B cfg s)
+    (h : stepWhole B cfg s = .ok s') :
+    s'.rows.length = s.rows.length + cfg.order.count 0 * scheduledAt cfg s.clock := by
+  unfold stepWhole at h
+  split at h
+  · rename_i s4 h4
+    cases h
+    have := runPhases_length B cfg hp _ s s4 hg h4
+    simp only [List.map_cons, List.map_nil, List.sum_cons, List.sum_nil, Nat.add_zero] at this
+    unfold scheduledAt
+    show s4.rows.length = _
+    rw [this]
+    simp only [Nat.add_assoc]
+  · cases h
+
+/-- **the size of the population after `n` steps, in closed form**: `population_size` plus what the schedule says
+for the steps starting at `start, start + step, …` – for every successful run of a configuration with one WPop
+component and legal priorities. Nothing else (mortality, the machine, the index map, collisions) changes the number
+of rows; untracked simulants stay in the table. -/
+theorem population_size_closed_form (B : Blk) (cfg : Config) (hp : PriosOk cfg) (hone : cfg.order.count 0 = 1)
+    (n : Nat) (s0 s : State) (h0 : initPopB B cfg = .ok s0) (h : iterWhole B cfg n s0 = .ok s) :
+    s.rows.length = cfg.pop + ((List.range n).map fun (k : Nat) => scheduledAt cfg (cfg.start + (k : Int) * cfg.step)).sum := by
+  have key : ∀ (n : Nat) (a b : State), Good B cfg a → iterWhole B cfg n a = .ok b →
+      b.rows.length = a.rows.length + ((List.range n).map fun (k : Nat) => scheduledAt cfg (a.clock + (k : Int) * cfg.step)).sum := by
+    intro n
+    induction n with
+    | zero => intro a b _ hab; cases hab; simp
+    | succ n ih =>
+      intro a b ha hab
+      unfold iterWhole at hab
+      split at hab
+      · rename_i a1 h1
+        have g1 := step_inv_rows B cfg _ (good_kept B cfg) (good_clock B cfg) a a1 ha h1
+        rw [ih a1 b g1 hab, step_length B cfg hp a a1 ha h1, hone, step_clock B cfg a a1 h1, Nat.one_mul,
+          List.range_succ_eq_map, List.map_cons, List.sum_cons, List.map_map]
+        simp only [Int.natCast_zero, Int.zero_mul, Int.add_zero, Nat.add_assoc]
+        congr 3
+        apply List.map_congr_left
+        intro k _
+        simp only [Function.comp]
+        congr 1
+        rw [Int.add_assoc]
+        congr 1
+        rw [Nat.succ_eq_add_one, Int.natCast_add, Int.add_mul, Int.natCast_one, Int.one_mul, Int.add_comm]
+      · cases hab
+  obtain ⟨hg, hc⟩ := initPop_good B cfg s0 h0
+  rw [key n s0 s hg h, (initial_population B cfg s0 h0).1, hc]
+
+/-- for a positive step size the step that starts at `start + k·step` is step number `k` of the schedule -/
+theorem birthsAt_step (cfg : Config) (hstep : 0 < cfg.step) (k ph : Nat) :
+    birthsAt cfg (cfg.start + (k : Int) * cfg.step) ph = ((cfg.births[k]?).getD []).getD ph 0 := by
+  unfold birthsAt
+  have e : (cfg.start + (k : Int) * cfg.step - cfg.start) / cfg.step = (k : Int) := by
+    have : cfg.start + (k : Int) * cfg.step - cfg.start = (k : Int) * cfg.step := by omega
+    rw [this, Int.mul_ediv_cancel _ (by omega)]
+  rw [e]
+  simp only [Int.natCast_nonneg, ↓reduceIte, Int.toNat_natCast]
+  cases cfg.births[k]? <;> simp
 
 /-! ### the hypotheses are inhabited (a kernel-cheap toy block; the real block is exercised by the driver) -/
 
